@@ -58,6 +58,12 @@ def g_formula(draw):
     how = gen.presentation(draw)
     if how == "int":
         X = gen.integral(X)
+    if n >= 2 and gen.choice(draw, [False, False, True]):
+        # rows exactly at the origin (silent / zero-padded frames), possibly a whole block of them
+        k = gen.integer(draw, 1, min(2, n - 1))
+        X = np.array(X, copy=True)
+        X[:k] = 0.0
+        chunks = [k] + gen.composition(draw, n - k)
     # the machine's configuration (trainer kind, which parameters a later training would update) has no say in what
     # the statistics of a data set are
     cfg = {"trainer": gen.choice(draw, ["ml", "ml", "map"]),
